@@ -225,7 +225,7 @@ Lemma tok_item_ok pre ty v ch :
   item_ok pre (ITok (create_token (st_of pre) (lenN pre) ty v) ch).
 Proof.
   intros H1 H2 H3 H4 H5. unfold item_ok. split; [exact H1|]. split; [reflexivity|].
-  split; [exact (start_pos pre (utf8_len v))|]. auto.
+  split; [exact (start_pos pre (lenN v))|]. auto.
 Qed.
 
 Lemma single_op_facts c ty : single_op c = Some ty ->
